@@ -44,7 +44,7 @@ KEY_ITN0 = "iterate_n-nonpositive-resets-completion"
 # ---------------------------------------------------------------------------------------------
 # script pool with fresh-process references
 # ---------------------------------------------------------------------------------------------
-def make_pool(ctx, n):
+def make_pool(ctx, n, kind="plain", degenerate=False):
     rng = ctx.rng
     pool = []
     for i in range(n):
@@ -53,7 +53,8 @@ def make_pool(ctx, n):
         forced0 = (i % 9 == 4)            # t_max exactly 0 ("just the initial state"), both space types
         S, info = lc.gen_script(rng, option, max_steps=24 if option != "gillespie" else 8, sub_molecule=sub,
                                 mode=("auto" if sub else None), units=(rng.random() < 0.3),
-                                zero_tmax=(True if forced0 else None), space_kind=(["grid", "graph"][(i // 9) % 2] if forced0 else None))
+                                zero_tmax=(True if forced0 else None), space_kind=(["grid", "graph"][(i // 9) % 2] if forced0 else None),
+                                degenerate=(degenerate and rng.random() < 0.7))
         info["sub_molecule"] = sub
         pool.append({"S": S, "info": info, "option": option, "idx": i})
     jobs = []
@@ -64,7 +65,7 @@ def make_pool(ctx, n):
                                {"obj": 0, "call": "drive", "max": 500, "state": False, "size": size, "samples": [], "past_end": 1},
                                {"obj": 0, "call": "get_output"}, {"obj": 0, "call": "get_output"}, {"obj": 0, "call": "finalize"},
                                {"obj": 0, "call": "finalize"}]})
-    res = lc.run_jobs(jobs, kind="plain", chunk=ctx.n(8, 40), parallel=ctx.n(6, 8), stall=ctx.n(6, 20))
+    res = lc.run_jobs(jobs, kind=kind, chunk=ctx.n(8, 40), parallel=ctx.n(6, 8), stall=ctx.n(6, 20))
     good = []
     for p, j in zip(pool, jobs):
         r = res[j["id"]]
@@ -386,20 +387,49 @@ def _limit_per_key(ctx, per_key=3):
 
 
 def run(ctx):
-    rng = ctx.rng
     _limit_per_key(ctx)
-    ctx.notes.append("every_call_returns_partial: 'no call faults' for all single-object histories with valid scripts; termination of the native "
-                     "loops inside one step and of the redistribution loop is observed with time-outs here (C14 owns the loop's proof)")
+    ctx.notes.append("every_call_returns: total except for two explicit hypotheses (Setup.initReturns = C14 redistribution loop terminates; Setup.stepReturns = poisson_distribution<int> returns, size assumption); "
+                     "both are observed with time-outs here")
     ctx.notes.append("independent_partial: holds for non-overlapping live intervals; the full statement is proved false (not_independent, "
                      "independent_is_false) = known finding two-engines-share-native")
-    pool = make_pool(ctx, ctx.n(45, 900))
+    explore(ctx, ctx.n(45, 900), ctx.n(300, 20000))
+    # the runner starts the failing-input search only when NO violation was reported; this check always reports the listed
+    # known finding, so it starts the search itself when something is broken and nothing unlisted was found
+    if ctx.broken and not _unlisted(ctx):
+        search(ctx)
+
+
+def _unlisted(ctx):
+    known, _ = common.known_findings(ID)
+    return [v for v in ctx.violations if v["key"] not in known]
+
+
+def search(ctx):
+    """failing-input search (called when an anchor / theorem / the correspondence is broken and no failing input is known
+    yet): more and longer histories than the quick tier, degenerate shapes, on the plain and on the assertion-hardened
+    build, until the time budget is used"""
+    if ctx.extra.get("searched"):
+        return
+    ctx.extra["searched"] = True
+    rounds = 0
+    while ctx.time_left() > 25 and not _unlisted(ctx) and rounds < 20:
+        kind = "hard" if rounds % 2 == 0 else "plain"
+        ctx.count("search_rounds")
+        explore(ctx, 40, 500, kind=kind, degenerate=True, long_histories=True, with_model=False)
+        rounds += 1
+    ctx.notes.append("search(): %d extra rounds of 500 histories (hard / plain builds, degenerate shapes, lengths up to 40)" % rounds)
+
+
+def explore(ctx, n_pool, n_hist, kind="plain", degenerate=False, long_histories=False, with_model=True):
+    rng = ctx.rng
+    pool = make_pool(ctx, n_pool, kind=kind, degenerate=degenerate)
     pool_by_idx = {p["idx"]: p for p in pool}
     pool_by_opt = {}
     for p in pool:
         pool_by_opt.setdefault(p["option"], []).append(p)
     if not pool_by_opt:
         return
-    n = ctx.n(300, 20000)
+    n = n_hist
     jobs = []
     for i in range(n):
         r = rng.random()
@@ -419,7 +449,7 @@ def run(ctx):
             cls = "itn0"
         else:
             cls = "uaf"
-        if ctx.tier == "quick":
+        if ctx.tier == "quick" and not long_histories:
             length = rng.randint(2, 6) if cls == "one" else rng.randint(4, 8)
         else:
             length = rng.randint(2, 6) if rng.random() < 0.5 else rng.randint(7, 40)
@@ -430,8 +460,8 @@ def run(ctx):
     # run one per child, so that they cannot disturb other histories
     risky = [j for j in jobs if j["cls"] in ("overlap", "uaf")]
     safe = [j for j in jobs if j["cls"] not in ("overlap", "uaf")]
-    res = lc.run_jobs(safe, kind="plain", chunk=ctx.n(12, 60), parallel=ctx.n(6, 8), stall=ctx.n(6, 20))
-    res.update(lc.run_jobs(risky, kind="plain", chunk=1, parallel=ctx.n(6, 8), stall=ctx.n(6, 20)))
+    res = lc.run_jobs(safe, kind=kind, chunk=ctx.n(12, 60), parallel=ctx.n(6, 8), stall=ctx.n(6, 20))
+    res.update(lc.run_jobs(risky, kind=kind, chunk=1, parallel=ctx.n(6, 8), stall=ctx.n(6, 20)))
     ops, metas = [], []
     for job in jobs:
         r = res[job["id"]]
@@ -471,7 +501,7 @@ def run(ctx):
             annotate_run_counts(job, pool_by_idx, results)
             ops.append(model_op(job, pool_by_idx, results))
             metas.append((job, results, case, r["status"]))
-    answers = ctx.model.run(ops) if ops else []
+    answers = ctx.model.run(ops) if (ops and with_model) else []
     for (job, results, case, status), ans in zip(metas, answers):
         if ans is None:
             continue
